@@ -418,8 +418,8 @@ Print Assumptions C20_prefix_dash_tree_read_folder_name_refuted.
    sendWebhooks is preceded by shouldSendNotification (whose regenerated body is proved equal to the model's
    should_send above), and in updateAlertStateAndCreateAlertHistory the history row is written only after the state
    has been stored (rules C20.* of GenOrderCheck.co_rules). ---- *)
-From SigP Require GenOrderCheck GenOrderProofs.
+From SigP Require GenOrderCheck GenOrderC20.
 Theorem C20_code_notification_gate_dominates_every_send : forall r : GenOrderCheck.rule,
   In r GenOrderCheck.c20_rules -> GenOrderCheck.rule_holds r.
-Proof. exact GenOrderProofs.co_C20_rules_hold. Qed.
+Proof. exact GenOrderC20.co_C20_rules_hold. Qed.
 Print Assumptions C20_code_notification_gate_dominates_every_send.
